@@ -121,12 +121,13 @@ class LoopSpec:
     The body is executed once for an arbitrary iteration k under the invariant (obligations loop#n.preserve.*), and the code
     after the loop continues from a havocked state that satisfies the invariant at exit."""
 
-    def __init__(self, inv, havoc, variant=None, name=None, at_exit=None):
+    def __init__(self, inv, havoc, variant=None, name=None, at_exit=None, body_post=None):
         self.inv = inv
         self.havoc = havoc
         self.variant = variant
         self.name = name
         self.at_exit = at_exit
+        self.body_post = body_post  # body_post(st, env, k, old): extra obligations about one generic iteration
 
     def _begin_iteration(self, st, env, node):
         """after havoc: remember what must stay unchanged in one iteration unless it was havocked"""
@@ -229,6 +230,9 @@ class LoopSpec:
                 return  # continue after the loop with the state at the break
             for nm, f in self.inv(st, env, SR(k.t + 1), old):
                 st.prove("%s.preserve.%s" % (lab, nm), f)
+            if self.body_post is not None:
+                for nm, f in self.body_post(st, env, k, old):
+                    st.prove("%s.iteration.%s" % (lab, nm), f)
             self._frame_obligations(st, env, lab, rec, pre_env)
             raise PathKilled()
         else:
@@ -274,6 +278,9 @@ class LoopSpec:
             done2 = SymSet(z3.Store(done.arr, x, z3.BoolVal(True)))
             for nm, f in self.inv(st, env, done2, old):
                 st.prove("%s.preserve.%s" % (lab, nm), f)
+            if self.body_post is not None:
+                for nm, f in self.body_post(st, env, SR(x), old):
+                    st.prove("%s.iteration.%s" % (lab, nm), f)
             self._frame_obligations(st, env, lab, rec, pre_env)
             raise PathKilled()
         else:
